@@ -225,6 +225,10 @@ type GCase struct {
 	Scenario string        `json:"scenario"`
 	Edits    []c02.EditRef `json:"edits"`
 	Indent   string        `json:"indent"`
+	Flavour  string        `json:"flavour,omitempty"` // mysql only: server version the driver is opened against ("" = mysql.DefaultPlan)
+	// Unnamed: tables that gain a CHECK without a name in the desired schema. Such an addition cannot be undone by name,
+	// so a plan that contains it has a change without reverse statement and must not be reported reversible.
+	Unnamed []string `json:"unnamed,omitempty"`
 }
 
 func checkDialectDown(c GCase) (DOutcome, error) {
@@ -236,6 +240,15 @@ func checkDialectDown(c GCase) (DOutcome, error) {
 			return out, fmt.Errorf("harness: %v", err)
 		}
 	}
+	for _, tn := range c.Unnamed {
+		if tb := edited.Table(tn); tb != nil {
+			q := "\""
+			if c.Dialect == "mysql" {
+				q = "`"
+			}
+			tb.Checks = append(tb.Checks, gm.Check{Expr: q + tb.Cols[0].Name + q + " <> 424242"})
+		}
+	}
 	from, err := gm.Build(c.Dialect, base)
 	if err != nil {
 		return out, fmt.Errorf("harness: %v", err)
@@ -244,8 +257,7 @@ func checkDialectDown(c GCase) (DOutcome, error) {
 	if err != nil {
 		return out, fmt.Errorf("harness: %v", err)
 	}
-	empty := schema.New(base.Name)
-	schema.NewRealm(empty)
+	empty := gm.Empty(c.Dialect, base)
 	var changes []schema.Change
 	switch c.Scenario {
 	case "create":
@@ -263,6 +275,13 @@ func checkDialectDown(c GCase) (DOutcome, error) {
 	switch c.Dialect {
 	case "mysql":
 		pl = mysql.DefaultPlan
+		if c.Flavour != "" {
+			drv, err := gm.OpenMySQL(c.Flavour)
+			if err != nil {
+				return out, fmt.Errorf("harness: %v", err)
+			}
+			pl = drv
+		}
 		scan = func(in string) ([]*migrate.Stmt, error) { return (*mysql.Driver)(nil).ScanStmts(in) }
 	case "postgres":
 		pl = postgres.DefaultPlan
@@ -305,6 +324,12 @@ func checkDialectDown(c GCase) (DOutcome, error) {
 func genG(t *rapid.T) GCase {
 	d := rapid.SampledFrom([]string{"mysql", "postgres", "sqlite"}).Draw(t, "dialect")
 	c := GCase{Dialect: d, Scenario: rapid.SampledFrom([]string{"create", "drop", "modify", "modify"}).Draw(t, "scenario"), Indent: rapid.SampledFrom([]string{"", "  ", "\t"}).Draw(t, "indent")}
+	if d == "mysql" {
+		c.Flavour = rapid.SampledFrom([]string{"", "mysql8", "mysql57", "maria", "tidb", "tidb"}).Draw(t, "flavour")
+	}
+	if c.Scenario == "modify" && rapid.IntRange(0, 2).Draw(t, "unnamedchecks") == 0 {
+		c.Unnamed = rapid.SliceOfNDistinct(rapid.SampledFrom([]string{"users", "posts", "tags", "logs"}), 1, 2, rapid.ID[string]).Draw(t, "unnamed")
+	}
 	if c.Scenario == "modify" {
 		sites := c02.Sites(d, c02.Base(d))
 		perm := rapid.Permutation(sites).Draw(t, "sites")
@@ -332,13 +357,13 @@ func genG(t *rapid.T) GCase {
 func runDialectDown(t *testing.T, col *ev.Collector) bool {
 	check := func(c GCase) error {
 		out, err := checkDialectDown(c)
-		col.Class(fmt.Sprintf("downfiles/%s/reversible=%v", c.Dialect, out.Reversible))
+		col.Class(fmt.Sprintf("downfiles/%s%s/reversible=%v", c.Dialect, map[bool]string{true: "(" + c.Flavour + ")"}[c.Flavour != ""], out.Reversible))
 		if out.Reverses > 0 {
 			var ks []string
 			for _, e := range c.Edits {
 				ks = append(ks, e.Kind)
 			}
-			col.NonTrivial(fmt.Sprintf("down|%s|%s|%v|%q", c.Dialect, c.Scenario, ks, c.Indent))
+			col.NonTrivial(fmt.Sprintf("down|%s%s|%s|%v|%q|%v", c.Dialect, c.Flavour, c.Scenario, ks, c.Indent, c.Unnamed))
 		}
 		col.Sample("downfiles/"+c.Dialect, c)
 		return err
@@ -353,6 +378,34 @@ func runDialectDown(t *testing.T, col *ev.Collector) bool {
 		for _, s := range c02.Sites(d, c02.Base(d)) {
 			if !ev.Each(col, "downfiles-dialects", GCase{Dialect: d, Scenario: "modify", Edits: []c02.EditRef{s.E}, Indent: "  "}, check, ev.Matcher[GCase]{}) {
 				return false
+			}
+		}
+		// a change that cannot be reversed (CHECK without a name) next to every single catalogue edit
+		flavours := []string{""}
+		if d == "mysql" {
+			flavours = append(flavours, "tidb")
+		}
+		for _, fl := range flavours {
+			for _, s := range c02.Sites(d, c02.Base(d)) {
+				if s.E.Table != "users" && s.E.Table != "posts" {
+					continue
+				}
+				if !ev.Each(col, "downfiles-dialects", GCase{Dialect: d, Scenario: "modify", Edits: []c02.EditRef{s.E}, Indent: "  ", Flavour: fl, Unnamed: []string{s.E.Table}}, check, ev.Matcher[GCase]{}) {
+					return false
+				}
+			}
+		}
+		if d == "mysql" {
+			// the TiDB planner plans every atomic change on its own and combines the flags itself
+			for _, sc := range []string{"create", "drop"} {
+				if !ev.Each(col, "downfiles-dialects", GCase{Dialect: d, Scenario: sc, Indent: "  ", Flavour: "tidb"}, check, ev.Matcher[GCase]{}) {
+					return false
+				}
+			}
+			for _, s := range c02.Sites(d, c02.Base(d)) {
+				if !ev.Each(col, "downfiles-dialects", GCase{Dialect: d, Scenario: "modify", Edits: []c02.EditRef{s.E}, Indent: "  ", Flavour: "tidb"}, check, ev.Matcher[GCase]{}) {
+					return false
+				}
 			}
 		}
 	}
